@@ -91,6 +91,11 @@ def run_pelt(
     # Evolving set of admissible segment starts.
     cost_eval_starts = np.array(([0]), dtype=np.int64)
 
+    # A start found prunable when evaluating the segments ending at t can only be
+    # discarded for segments ending at t + min_segment_length or later, because the
+    # segment following a changepoint at t is at least min_segment_length long.
+    pending_pruned_starts = []
+
     observation_indices = np.arange(2 * min_segment_length - 1, num_obs).reshape(-1, 1)
     for current_obs_ind in observation_indices:
         latest_start = current_obs_ind - min_segment_shift
@@ -109,9 +114,16 @@ def run_pelt(
         prev_cpts[current_obs_ind] = cost_eval_starts[argmin_candidate_cost]
 
         # Trimming the admissible starts set: (reuse the array of optimal costs)
-        cost_eval_starts = cost_eval_starts[
-            candidate_opt_costs + split_cost <= opt_cost[current_obs_ind + 1] + penalty
-        ]
+        pending_pruned_starts.append(
+            cost_eval_starts[
+                candidate_opt_costs + split_cost
+                > opt_cost[current_obs_ind + 1] + penalty
+            ]
+        )
+        if len(pending_pruned_starts) >= min_segment_length:
+            cost_eval_starts = np.setdiff1d(
+                cost_eval_starts, pending_pruned_starts.pop(0)
+            )
 
     return opt_cost[1:], get_changepoints(prev_cpts)
 
